@@ -11,7 +11,6 @@ import (
 	"bytes"
 	"encoding/binary"
 	"fmt"
-	"io"
 	"testing"
 
 	"github.com/datastax/go-cassandra-native-protocol/compression/lz4"
@@ -94,7 +93,7 @@ func c08Property(rt *rapid.T) {
 	desc := func() string { return fmt.Sprintf("%s size=%d content=%s", format, n, cname) }
 	var comp, back bytes.Buffer
 	var err error
-	src := bytes.NewBuffer(append([]byte{}, x...))
+	src, _, _ := streamSource(rt, x, "compressSource")
 	switch format {
 	case "lz4-raw":
 		err = lz4.Compressor{}.Compress(src, &comp)
@@ -134,10 +133,8 @@ func c08Property(rt *rapid.T) {
 		rt.Fatalf("%s: the compressed form does not expand to the input per the independent decoder (err=%v, %d bytes)", desc(), rerr, len(refOut))
 	}
 	// library round trip (the source is sometimes a reader with short reads, like a network connection)
-	var in io.Reader = bytes.NewBuffer(append([]byte{}, c...))
-	if rapid.IntRange(0, 2).Draw(rt, "shortReads") == 0 {
-		in = &chunkReader{r: bytes.NewReader(c), chunks: drawChunks(rt)}
-	}
+	// (through one of the reader types callers use: *bytes.Buffer, *bytes.Reader, bufio.Reader, a plain io.Reader, short reads)
+	in, _, _ := streamSource(rt, c, "decompressSource")
 	switch format {
 	case "lz4-raw":
 		err = lz4.Compressor{}.Decompress(in, &back)
@@ -166,10 +163,7 @@ func c08Property(rt *rapid.T) {
 	}
 	for i, fb := range foreign {
 		var out bytes.Buffer
-		var fin io.Reader = bytes.NewBuffer(append([]byte{}, fb...))
-		if rapid.IntRange(0, 2).Draw(rt, fmt.Sprintf("shortReads%d", i)) == 0 {
-			fin = &chunkReader{r: bytes.NewReader(fb), chunks: drawChunks(rt)}
-		}
+		fin, _, _ := streamSource(rt, fb, fmt.Sprintf("foreignSource%d", i))
 		switch format {
 		case "lz4-raw":
 			err = lz4.Compressor{}.Decompress(fin, &out)
